@@ -15,7 +15,7 @@ SOURCES = ('basic', 'compound', 'orthogonal')
 
 class St:
     __slots__ = ('name', 'kind', 'parent', 'children', 'initial', 'memory', 'entry_sends', 'exit_sends',
-                 'pre', 'post', 'inv', 'bump_entry', 'bump_exit', 'tobs', 'tinv')
+                 'pre', 'post', 'inv', 'bump_entry', 'bump_exit', 'tobs', 'tinv', 'echo')
 
     def __init__(self, name, kind, parent):
         self.name = name
@@ -33,16 +33,17 @@ class St:
         self.bump_exit = False
         self.tobs = False       # code logs the `time` variable it sees
         self.tinv = []          # time-aware invariants: (cond id, after arg or None, idle arg or None)
+        self.echo = None        # ('entry'|'exit', i): that code is exactly the text of the event-free guard of transition i
 
     def as_tuple(self):
         return (self.name, self.kind, self.parent, tuple(self.children), self.initial, self.memory,
                 tuple(self.entry_sends), tuple(self.exit_sends), tuple(self.pre), tuple(self.post),
-                tuple(self.inv), self.bump_entry, self.bump_exit, self.tobs, tuple(self.tinv))
+                tuple(self.inv), self.bump_entry, self.bump_exit, self.tobs, tuple(self.tinv), self.echo)
 
 
 class Tr:
     __slots__ = ('i', 'src', 'tgt', 'event', 'prio', 'guard', 'sends', 'pre', 'post', 'inv', 'bump',
-                 'tg_after', 'tg_idle', 'tobs')
+                 'tg_after', 'tg_idle', 'tobs', 'gform')
 
     def __init__(self, i, src, tgt, event, prio, guard):
         self.i = i
@@ -59,10 +60,11 @@ class Tr:
         self.tg_after = None     # time-aware guard: after(d) argument or None
         self.tg_idle = None
         self.tobs = False
+        self.gform = False      # guard written in the event-free form P.g(i)
 
     def as_tuple(self):
         return (self.i, self.src, self.tgt, self.event, self.prio, self.guard, tuple(self.sends),
-                tuple(self.pre), tuple(self.post), tuple(self.inv), self.bump, self.tg_after, self.tg_idle, self.tobs)
+                tuple(self.pre), tuple(self.post), tuple(self.inv), self.bump, self.tg_after, self.tg_idle, self.tobs, self.gform)
 
 
 class Spec:
@@ -182,6 +184,7 @@ class Cfg:
         self.bump = False         # code modifies context variable v
         self.time_guards = False
         self.time_obs = False     # code logs `time`; states carry time-aware invariants
+        self.echo = False         # some guards use the event-free form and their text doubles as entry/exit code of a state
         self.force_history = False
         self.pair_bias = 0        # out of 8: probability that a new transition copies source/event of an earlier one
         self.root_orthogonal = True
@@ -388,6 +391,14 @@ def decorate(sp, st, cfg, events):
                     t.tg_after = st.pick([0, 1, 2, 3, 0.5])
                 if st.flag(2, 3):
                     t.tg_idle = st.pick([0, 1, 2, 3, 0.5])
+    if cfg.echo:
+        gs_ = [t for t in sp.trans if t.guard]
+        for t in gs_[:2]:
+            if st.flag(1, 2):
+                t.gform = True
+                s = sp.states[st.pick(sorted(sp.states))]
+                if s.echo is None:
+                    s.echo = (st.pick(['entry', 'exit']), t.i)
     if cfg.time_obs:
         for s in sp.states.values():
             s.tobs = True
@@ -422,6 +433,8 @@ def _sends_code(sends):
 
 
 def entry_code(s):
+    if s.echo is not None and s.echo[0] == 'entry':
+        return 'P.g(%d)' % s.echo[1]
     lines = ['P.entry(%r)' % s.name]
     if s.tobs:
         lines.append('P.obs(%r, time)' % ('entry:' + s.name))
@@ -432,6 +445,8 @@ def entry_code(s):
 
 
 def exit_code(s):
+    if s.echo is not None and s.echo[0] == 'exit':
+        return 'P.g(%d)' % s.echo[1]
     lines = ['P.exit(%r)' % s.name]
     if s.tobs:
         lines.append('P.obs(%r, time)' % ('exit:' + s.name))
@@ -454,6 +469,8 @@ def action_code(t):
 def guard_code(t):
     if not t.guard:
         return None
+    if t.gform:
+        return 'P.g(%d)' % t.i
     if t.tg_after is not None or t.tg_idle is not None:
         return 'P.tguard(%d, event, %s, %s, time)' % (
             t.i,
@@ -613,3 +630,74 @@ def to_yaml(sp, order=None, name='gen'):
 def build_yaml(sp, order=None, name='gen'):
     from sismic.io import import_from_yaml
     return import_from_yaml(to_yaml(sp, order, name))
+
+
+def build_via_edits(sp, st, name='gen', preamble=None):
+    """Materialise the chart by a detour: some subtrees are first attached somewhere else, the half-built
+    chart is executed and queried (which is what warms any cache inside the model), and only then the
+    subtrees are moved to where they belong with move_state / rename_state.  The result must be the same
+    statechart as build_api(sp): it is the same abstract chart, reached through the editing API."""
+    from sismic import model
+    from sismic.interpreter import Interpreter
+    sc = model.Statechart(name, preamble=preamble or PREAMBLE)
+    moved = {}      # state -> temporary parent
+    alias = {}      # state -> temporary name
+    for n, s in sp.states.items():
+        parent = s.parent
+        if parent is not None and st.flag(1, 4):
+            # candidates: composite states already added that are not n's proper parent
+            cands = [m for m in sc.states if sp.kind(_orig(alias, m)) in ('compound', 'orthogonal')
+                     and _orig(alias, m) != parent]
+            if s.kind in HIST:
+                cands = [m for m in cands if sp.kind(_orig(alias, m)) == 'compound']
+            if cands:
+                moved[n] = st.pick(cands)
+        o = _state_obj(model, s)
+        if st.flag(1, 6):
+            alias[n] = n + '_tmp'
+            o._name = alias[n]
+        if hasattr(o, 'initial'):
+            o.initial = None
+        if hasattr(o, 'memory'):
+            o.memory = None
+        tp = moved.get(n, parent)
+        tp = alias.get(tp, tp) if tp is not None and tp in alias and tp in sp.states else tp
+        sc.add_state(o, tp)
+    for t in sp.trans:
+        o = _trans_obj(model, t)
+        o._source = alias.get(t.src, t.src)
+        if t.tgt is not None:
+            o._target = alias.get(t.tgt, t.tgt)
+        sc.add_transition(o)
+    # warm-up: execute and query the half-built chart
+    try:
+        from sim.probes import Probe
+        it = Interpreter(sc, initial_context={'P': Probe()})
+        for _ in range(3):
+            it.execute_once()
+    except Exception:
+        pass
+    for m in sc.states:
+        sc.depth_for(m)
+        sc.descendants_for(m)
+        sc.ancestors_for(m)
+    # now the edits
+    for n in st.shuffle(sorted(moved)):
+        sc.move_state(alias.get(n, n), alias.get(sp.states[n].parent, sp.states[n].parent))
+    for n in st.shuffle(sorted(alias)):
+        sc.rename_state(alias[n], n)
+    for n, s in sp.states.items():
+        o = sc.state_for(n)
+        if s.initial is not None:
+            o.initial = s.initial
+        if s.memory is not None:
+            o.memory = s.memory
+    sc.validate()
+    return sc, len(moved), len(alias)
+
+
+def _orig(alias, m):
+    for k, v in alias.items():
+        if v == m:
+            return k
+    return m
